@@ -157,7 +157,7 @@ func cmdCheck(args []string) int {
 			if !ct.ServesProperty(*prop) {
 				continue
 			}
-			if *only != "" && !strings.Contains(ct.Key, *only) {
+			if *only != "" && !matchOnly(ct.Key, *only) {
 				continue
 			}
 			units = append(units, unit{ct: ct})
@@ -166,7 +166,7 @@ func cmdCheck(args []string) int {
 			if !hasStr(lm.Props, *prop) {
 				continue
 			}
-			if *only != "" && !strings.Contains(lm.Name, *only) {
+			if *only != "" && !matchOnly(lm.Name, *only) {
 				continue
 			}
 			units = append(units, unit{lm: lm})
@@ -528,4 +528,12 @@ func writeViolation(vdir, prop string, o *engine.Obligation, reason string) stri
 	data, _ := json.MarshalIndent(rec, "", " ")
 	os.WriteFile(path, data, 0o644)
 	return fmt.Sprintf("VIOLATION property=%s replay=%s obligation=%s (%s) no-failing-input-found", prop, path, o.Name, o.Desc)
+}
+
+// matchOnly: --func X selects units whose name contains X; --func =X selects the unit named exactly X.
+func matchOnly(name, only string) bool {
+	if strings.HasPrefix(only, "=") {
+		return name == only[1:]
+	}
+	return strings.Contains(name, only)
 }
